@@ -42,20 +42,83 @@ package dnsutils
 // TTL helpers (C05, C15)
 //@ import dns "github.com/miekg/dns"
 
-//@ func GetMinimalTTL
-//@   nobody
+// GetMinimalTTL: the smallest TTL among the non-OPT records, 0 if there is none.
+//@ spec func isRec(m *dns.Msg, s int, i int) bool = inSec(m, s, i) && hdrAt(m, s, i).Rrtype != 41
+//@ func GetMinimalTTL [C05, C15]
 //@   log GetMinimalTTL
-//@   requires m != nil
+//@   requires m != nil && wfMsg(m)
 //@   ensures 0 <= result && result <= 4294967295
+//@   ensures forall s range 3, i int :: isRec(m, s, i) ==> result <= hdrAt(m, s, i).Ttl
+//@   ensures (exists s range 3, i int :: isRec(m, s, i)) ==> (exists s range 3, i int :: isRec(m, s, i) && hdrAt(m, s, i).Ttl == result)
+//@   ensures (forall s range 3, i int :: !isRec(m, s, i)) ==> result == 0
+//@   loop 0:
+//@     invariant 0 <= it0 && it0 <= 3
+//@     invariant forall s range 3, i int :: isRec(m, s, i) && s < it0 ==> minTTL <= hdrAt(m, s, i).Ttl
+//@     invariant hasRecord ==> (exists s range 3, i int :: isRec(m, s, i) && s < it0 && hdrAt(m, s, i).Ttl == minTTL)
+//@     invariant !hasRecord ==> minTTL == 4294967295 && (forall s range 3, i int :: s < it0 ==> !isRec(m, s, i))
+//@   loop 1:
+//@     invariant 0 <= it0 && it0 < 3 && section == sec(m, it0) && 0 <= it1 && it1 <= len(section)
+//@     invariant forall s range 3, i int :: isRec(m, s, i) && (s < it0 || (s == it0 && i < it1)) ==> minTTL <= hdrAt(m, s, i).Ttl
+//@     invariant hasRecord ==> (exists s range 3, i int :: isRec(m, s, i) && (s < it0 || (s == it0 && i < it1)) && hdrAt(m, s, i).Ttl == minTTL)
+//@     invariant !hasRecord ==> minTTL == 4294967295 && (forall s range 3, i int :: (s < it0 || (s == it0 && i < it1)) ==> !isRec(m, s, i))
 
-//@ func SubtractTTL
-//@   nobody
+// applyTTL clamps every non-OPT TTL from above (maximum) or below; OPT and foreign records untouched.
+//@ spec func clampTTL(t int, ttl int, maximum bool) int = ite(maximum, ite(t > ttl, ttl, t), ite(t < ttl, ttl, t))
+//@ func applyTTL [C15]
+//@   requires m != nil && wfMsg(m)
+//@   modifies comp(dns.RR_Header.Ttl)
+//@   ensures forall s range 3, i int :: inSec(m, s, i) ==> hdrAt(m, s, i).Ttl == ite(hdrAt(m, s, i).Rrtype == 41, old(hdrAt(m, s, i).Ttl), clampTTL(old(hdrAt(m, s, i).Ttl), ttl, maximum))
+//@   ensures forall h *dns.RR_Header :: (forall s range 3, i int :: inSec(m, s, i) ==> hdrAt(m, s, i) != h) ==> h.Ttl == old(h.Ttl)
+//@   loop 0:
+//@     invariant 0 <= it0 && it0 <= 3
+//@     invariant forall s range 3, i int :: inSec(m, s, i) ==> hdrAt(m, s, i).Ttl == ite(hdrAt(m, s, i).Rrtype == 41 || s >= it0, old(hdrAt(m, s, i).Ttl), clampTTL(old(hdrAt(m, s, i).Ttl), ttl, maximum))
+//@     invariant forall h *dns.RR_Header :: (forall s range 3, i int :: inSec(m, s, i) ==> hdrAt(m, s, i) != h) ==> h.Ttl == old(h.Ttl)
+//@   loop 1:
+//@     invariant 0 <= it0 && it0 < 3 && section == sec(m, it0) && 0 <= it1 && it1 <= len(section)
+//@     invariant forall s range 3, i int :: inSec(m, s, i) ==> hdrAt(m, s, i).Ttl == ite(hdrAt(m, s, i).Rrtype == 41 || s > it0 || (s == it0 && i >= it1), old(hdrAt(m, s, i).Ttl), clampTTL(old(hdrAt(m, s, i).Ttl), ttl, maximum))
+//@     invariant forall h *dns.RR_Header :: (forall s range 3, i int :: inSec(m, s, i) ==> hdrAt(m, s, i) != h) ==> h.Ttl == old(h.Ttl)
+
+//@ func ApplyMaximumTTL [C15]
+//@   requires m != nil && wfMsg(m)
+//@   modifies comp(dns.RR_Header.Ttl)
+//@   ensures forall s range 3, i int :: inSec(m, s, i) && hdrAt(m, s, i).Rrtype == 41 ==> hdrAt(m, s, i).Ttl == old(hdrAt(m, s, i).Ttl)
+//@ func ApplyMinimalTTL [C15]
+//@   requires m != nil && wfMsg(m)
+//@   modifies comp(dns.RR_Header.Ttl)
+//@   ensures forall s range 3, i int :: inSec(m, s, i) && hdrAt(m, s, i).Rrtype == 41 ==> hdrAt(m, s, i).Ttl == old(hdrAt(m, s, i).Ttl)
+
+// what SubtractTTL must leave in a record with TTL t
+//@ spec func subTTL(t int, delta int) int = ite(t > delta, t - delta, 1)
+
+// SubtractTTL: every non-OPT record of the message has its TTL lowered by delta, but never
+// below 1; OPT pseudo-records and every record outside the message keep their TTL (C05, C15).
+//@ func SubtractTTL [C05, C15]
 //@   log SubtractTTL
-//@   requires m != nil
+//@   requires m != nil && wfMsg(m)
 //@   modifies comp(dns.RR_Header.Ttl)
+//@   ensures forall s range 3, i int :: inSec(m, s, i) ==> hdrAt(m, s, i).Ttl == ite(hdrAt(m, s, i).Rrtype == 41, old(hdrAt(m, s, i).Ttl), subTTL(old(hdrAt(m, s, i).Ttl), delta))
+//@   ensures forall h *dns.RR_Header :: (forall s range 3, i int :: inSec(m, s, i) ==> hdrAt(m, s, i) != h) ==> h.Ttl == old(h.Ttl)
+//@   loop 0:
+//@     invariant 0 <= it0 && it0 <= 3
+//@     invariant forall s range 3, i int :: inSec(m, s, i) ==> hdrAt(m, s, i).Ttl == ite(hdrAt(m, s, i).Rrtype == 41 || s >= it0, old(hdrAt(m, s, i).Ttl), subTTL(old(hdrAt(m, s, i).Ttl), delta))
+//@     invariant forall h *dns.RR_Header :: (forall s range 3, i int :: inSec(m, s, i) ==> hdrAt(m, s, i) != h) ==> h.Ttl == old(h.Ttl)
+//@   loop 1:
+//@     invariant 0 <= it0 && it0 < 3 && section == sec(m, it0) && 0 <= it1 && it1 <= len(section)
+//@     invariant forall s range 3, i int :: inSec(m, s, i) ==> hdrAt(m, s, i).Ttl == ite(hdrAt(m, s, i).Rrtype == 41 || s > it0 || (s == it0 && i >= it1), old(hdrAt(m, s, i).Ttl), subTTL(old(hdrAt(m, s, i).Ttl), delta))
+//@     invariant forall h *dns.RR_Header :: (forall s range 3, i int :: inSec(m, s, i) ==> hdrAt(m, s, i) != h) ==> h.Ttl == old(h.Ttl)
 
-//@ func SetTTL
-//@   nobody
+// SetTTL: every non-OPT record gets exactly ttl; OPT and foreign records are untouched.
+//@ func SetTTL [C05, C15]
 //@   log SetTTL
-//@   requires m != nil
+//@   requires m != nil && wfMsg(m)
 //@   modifies comp(dns.RR_Header.Ttl)
+//@   ensures forall s range 3, i int :: inSec(m, s, i) ==> hdrAt(m, s, i).Ttl == ite(hdrAt(m, s, i).Rrtype == 41, old(hdrAt(m, s, i).Ttl), ttl)
+//@   ensures forall h *dns.RR_Header :: (forall s range 3, i int :: inSec(m, s, i) ==> hdrAt(m, s, i) != h) ==> h.Ttl == old(h.Ttl)
+//@   loop 0:
+//@     invariant 0 <= it0 && it0 <= 3
+//@     invariant forall s range 3, i int :: inSec(m, s, i) ==> hdrAt(m, s, i).Ttl == ite(hdrAt(m, s, i).Rrtype == 41 || s >= it0, old(hdrAt(m, s, i).Ttl), ttl)
+//@     invariant forall h *dns.RR_Header :: (forall s range 3, i int :: inSec(m, s, i) ==> hdrAt(m, s, i) != h) ==> h.Ttl == old(h.Ttl)
+//@   loop 1:
+//@     invariant 0 <= it0 && it0 < 3 && section == sec(m, it0) && 0 <= it1 && it1 <= len(section)
+//@     invariant forall s range 3, i int :: inSec(m, s, i) ==> hdrAt(m, s, i).Ttl == ite(hdrAt(m, s, i).Rrtype == 41 || s > it0 || (s == it0 && i >= it1), old(hdrAt(m, s, i).Ttl), ttl)
+//@     invariant forall h *dns.RR_Header :: (forall s range 3, i int :: inSec(m, s, i) ==> hdrAt(m, s, i) != h) ==> h.Ttl == old(h.Ttl)
